@@ -34,9 +34,9 @@ func (wu *WindowUpdate) SetIncrement(increment int) {
 }
 
 func (wu *WindowUpdate) Deserialize(fr *FrameHeader) error {
-	if len(fr.payload) < 4 {
+	if len(fr.payload) != 4 { // RFC 7540 6.9
 		wu.increment = 0
-		return ErrMissingBytes
+		return NewGoAwayError(FrameSizeError, "WINDOW_UPDATE frame must be 4 octets")
 	}
 
 	wu.increment = int(http2utils.BytesToUint32(fr.payload) & (1<<31 - 1))
